@@ -37,6 +37,9 @@ def reach_x(body, starts, stop=(), assume_stmt=None, assume_call=None, init=None
     assume_stmt = assume_stmt or {}; assume_call = assume_call or {}
     seen = set(); out = set(); work = [(s, frozenset((init or {}).items())) for s in starts if s not in stop]
     plain = lambda o: o is not None and o['k'] in ('copy', 'move') and not o['pl']['p']
+    def kind_of(l):
+        ty = body.locals[l].strip().lstrip('&').strip()
+        return 'opt' if ty.startswith('std::option::Option<') else ('res' if ty.startswith('std::result::Result<') else None)
     while work:
         bi, env = work.pop()
         if (bi, env) in seen: continue
@@ -87,6 +90,13 @@ def reach_x(body, starts, stop=(), assume_stmt=None, assume_call=None, init=None
                 elif T.TRY_BRANCH.search(nm) and isinstance(known, tuple) and known[0] == 'V':
                     e[dl] = ('V', (1 - known[1]) if is_opt else known[1])          # Some -> Continue, None -> Break ; Ok -> Continue, Err -> Break
                 elif item == 'from_residual' and T.FROM_RESIDUAL.search(nm): e[dl] = ('V', 0 if is_opt else 1)
+                elif isinstance(known, tuple) and known[0] == 'V' and (T.ERR_ADAPTORS.search(nm) or ERR_KEEPING.search(nm)) and kind_of(a0['pl']['l']) and kind_of(dl):
+                    # opt.with_context(..) / .ok_or(..) / .map(..) / .and_then(..): a failure stays a failure (None / Err of the result type);
+                    # through the total ones (VARIANT_KEEPING) a success stays a success as well
+                    failed = known[1] == (0 if kind_of(a0['pl']['l']) == 'opt' else 1)
+                    if failed: e[dl] = ('V', 0 if kind_of(dl) == 'opt' else 1)
+                    elif VARIANT_KEEPING.search(nm): e[dl] = ('V', 1 if kind_of(dl) == 'opt' else 0)
+                    else: e.pop(dl, None)
                 elif re.search(r'bool>::then_some(::<.*>)?$', nm) and isinstance(known, bool): e[dl] = ('V', 1 if known else 0)
                 elif item in ('is_none', 'is_some') and re.search(r'Option::<.*>::is_(none|some)$', nm) and plain(a0) and variant_at(e, {'l': a0['pl']['l'], 'p': ['*']}) is not None:
                     e[dl] = (variant_at(e, {'l': a0['pl']['l'], 'p': ['*']}) == 1) == (item == 'is_some')
@@ -103,6 +113,10 @@ def reach_x(body, starts, stop=(), assume_stmt=None, assume_call=None, init=None
             if s in stop or body.blocks[s]['cleanup']: continue
             work.append((s, fe))
     return out
+
+
+# adaptors that map Some <-> Some/Ok and None/Err <-> None/Err (total: the closure / argument only changes the payload)
+VARIANT_KEEPING = re.compile(r'::(with_context|context|ok_or|ok_or_else|map_err|map|copied|cloned|as_ref|as_mut|as_deref|inspect|inspect_err)(::<.*>)?$')
 
 
 def variant_at(e, pl):
